@@ -81,7 +81,8 @@ CONFIG['C04'] = {
             "kind of grid: outcome, error kind, and for accepted views every row as buffer indices; (3) f64 crop boxes through "
             "Resizer::resize with 19^4 combinations of {-inf,-1e300,-1,denormals,+-0,0.5,1,W-1,W-0.5,W-ulp,W,W+ulp,W+1,1e300,inf,NaN}; "
             "(4) every image constructor x 13 pixel types x sizes incl. 2^31 x 2^31 and u32::MAX^2 x buffer lengths need-1, need, need+1 x "
-            "misalignment 0..3 bytes. distinct_nontrivial counts distinct request lines of accepted views / grid points.",
+            "misalignment 0..3 bytes; (5) C14's split requests (ranges inside / across / beyond typed, cropped and nested views, read-only and "
+            "mutable): a range is accepted iff it lies inside the view it is applied to. distinct_nontrivial counts distinct request lines of accepted views / grid points.",
     'trusted_base': COMMON_TB + [
         "row exposure of accepted views (Fir.View.rows) is tied to the real containers by correspondence (complete for images up to 4x4)",
         "f64 comparisons/addition: Lean Float (hardware binary64); theorems use the IEEE-like carrier XF with an arbitrary rounding of the sum",
@@ -270,7 +271,8 @@ CONFIG['C12'] = _resize_cfg(
 
 CONFIG['C11'] = _resize_cfg(
     "Nearest for all 13 pixel types, sizes 1..64 plus 1xN / Nx1 with N up to 3000 and up-scales to 200, crops: none, integer, fractional, "
-    "edge-flush, sub-pixel, and boxes within one ulp of the right / bottom edge (widths down to 2^-53 of the size); typed, dynamic and "
+    "edge-flush, sub-pixel, boxes within one ulp of the right / bottom edge (widths down to 2^-53 of the size), and destinations within a "
+    "fraction of (or exactly) the crop size with origins whole, fractional or 1e-7 .. 1e-12 beside a whole number; typed, dynamic and "
     "cropped-view sources. Oracle: destination pixel (x, y) must be the source pixel at floor(left + (x+1/2)*cw/dw), floor(top + ...) "
     "computed in exact rational arithmetic from the f64 bit patterns; within 2^-40 of an integer either neighbour inside the source is accepted.",
     "Machine-checked proof (Lean 4) about the model of resample_nearest: every destination component is a bit-exact copy of a source "
@@ -283,7 +285,9 @@ CONFIG['C05'] = _resize_cfg(
     "every case is run twice with two sentinel fills (0xA5, 0x5A) of the whole destination buffer; destinations: exact buffer, longer "
     "buffer with offset, mutable cropped view with margins, flush crop in an offset parent, nested crop; sources likewise; all 13 pixel "
     "types, all algorithms incl. SuperSampling with multiplicities 1..8 on aspect-preserving and non-preserving down-scales, erroring and "
-    "zero-area crop boxes. Oracle: the set of buffer pixels that differ from the sentinel in either run must be exactly the destination "
+    "zero-area crop boxes; plus the other operations the property names: alpha multiply / divide (two-image and in-place, all back-ends) through "
+    "5 x 5 source / destination placements with whole buffers compared, component conversion and colour mapping (both mappers, both "
+    "directions, 8 <-> 16 bit, 1..4 components) into longer buffers and mutable cropped views against the exact-size result. Oracle: the set of buffer pixels that differ from the sentinel in either run must be exactly the destination "
     "rectangle (or empty on error / zero size), written values must not depend on the sentinel, the source buffer must be unchanged.",
     "Machine-checked proof (Lean 4): results reach memory only through the row index lists of the destination view - every pixel of the "
     "rectangle is assigned, nothing outside changes (injectImg lemmas over the view model, any nesting); the logical result does not "
@@ -296,7 +300,8 @@ CONFIG['C05'] = _resize_cfg(
 CONFIG['C13'] = _resize_cfg(
     "each logical resize (13 pixel types, random geometry / crop / algorithm / alpha / back-end) is executed through a plain typed image and "
     "through three further container combinations: typed images at an offset of a longer buffer, cropped views with margins, flush crops, "
-    "nested crops, Image / ImageRef / CroppedImage(Mut) through the dynamic entry point; parents are filled with poison values. Oracle "
+    "nested crops, Image / ImageRef / CroppedImage(Mut) through the dynamic entry point; parents are filled with poison values; alpha "
+    "operations, component conversion and colour mapping through the same kinds of containers (whole buffers compared with the exact-size result). Oracle "
     "(harness): the logical destination pixels must be identical to those of the plain run; every run is also compared with the model.",
     "Machine-checked proof (Lean 4): an operation of the model sees images only through extractImg / injectImg over the view's row index "
     "lists; reading depends only on the exposed pixels, write-then-read through any well-formed view returns the logical image, hence equal "
